@@ -125,6 +125,29 @@ class NotEnabled(Exception):
     """The model can take this operation, the real objects cannot (the replay diverged earlier)."""
 
 
+def env_dict(env):
+    """The mapping behind an Env, whatever the attribute is called (the few lines of schedrun.env_dict: this process must
+    not import detsched).  When it cannot be told, the Env itself: it is a mapping, read through its public interface."""
+    d = getattr(env, 'dictionary', None)
+    if isinstance(d, dict):
+        return d
+    cands = [v for v in vars(env).values() if isinstance(v, dict)]
+    return cands[0] if len(cands) == 1 else env
+
+
+def held(task, name):
+    """What a PythonTask holds as `args` / `kwargs`: the documented attribute, its private spellings, else the one attribute
+    of that type (a task has a name, two sets of dependencies, a function, two keyword names, one tuple and one dict)."""
+    for attr in (name, '_' + name, '_PythonTask__' + name):
+        if hasattr(task, attr):
+            return getattr(task, attr)
+    cands = [v for v in vars(task).values() if isinstance(v, dict(args=tuple, kwargs=dict)[name])]
+    if len(cands) == 1:
+        return cands[0]
+    raise AttributeError('what a PythonTask holds cannot be observed: its %s are neither .%s nor ._%s nor the one %s among %s'
+                         % (name, name, name, 'tuple' if name == 'args' else 'dict', sorted(vars(task))))
+
+
 class World:
     """The real objects of one operation sequence, and the harness-side bookkeeping PyTask.tla has variables for."""
 
@@ -345,14 +368,14 @@ class World:
             if m is None:
                 task[t] = dict(made=False, mode='', a=0, k=0, a0=[], k0=[], kw=[])
                 continue
-            tk = self.task[t]
-            kw = sorted(str(k) for k in tk.kwargs)
+            tk_args, tk_kwargs = held(self.task[t], 'args'), held(self.task[t], 'kwargs')
+            kw = sorted(str(k) for k in tk_kwargs)
             if m['mode'] == 'eval':
                 task[t] = dict(made=True, mode='eval', a=0, k=0, a0=[], k0=[], kw=kw)
             else:
-                arg = tk.args[0] if len(tk.args) == 1 else ['#args=%d' % len(tk.args)]
-                task[t] = dict(made=True, mode=m['mode'], a=a(arg), k=a(tk.kwargs.get('k', ['#missing'])), a0=m['a0'], k0=m['k0'], kw=kw)
-        env = {T: {K: val(v, T) for K, v in items.items()} for T, items in self._entries(self.env.dictionary)}
+                arg = tk_args[0] if len(tk_args) == 1 else ['#args=%d' % len(tk_args)]
+                task[t] = dict(made=True, mode=m['mode'], a=a(arg), k=a(tk_kwargs.get('k', ['#missing'])), a0=m['a0'], k0=m['k0'], kw=kw)
+        env = {T: {K: val(v, T) for K, v in items.items()} for T, items in self._entries(env_dict(self.env))}
         upd = {}
         if self.pend_obj is not None:
             upd = {T: {K: val(v, T) for K, v in ent.items()} for T, ent in self.pend_obj[0].items()}
@@ -498,7 +521,7 @@ def _scheduler_leg(impl):
     if final is not w.env:
         raise RuntimeError('schedule() returned another environment')
     publish_seen()
-    statuses = {n: w.leaf(w.env.dictionary.get(n, {}).get('status')) for n in names}
+    statuses = {n: w.leaf(env_dict(w.env).get(n, {}).get('status')) for n in names}
     import copy
     try:        # a consequence of what do() leaves in task.kwargs, recorded for the report
         copy.deepcopy(w.task[names[1]])
@@ -534,7 +557,8 @@ def impl_runs(wd, job):
     except subprocess.TimeoutExpired as ex:
         raise tlc.MachineryError('conf_pytask worker timed out') from ex
     if p.returncode != 0 or not os.path.exists(outp):
-        raise tlc.MachineryError('conf_pytask worker failed (rc=%s):\n%s' % (p.returncode, (p.stdout + p.stderr)[-3000:]))
+        why = ([l for l in p.stderr.strip().splitlines() if l.strip()] or ['no output'])[-1].strip()      # the exception line of the traceback
+        raise tlc.MachineryError('conf_pytask worker failed (rc=%s): %s\n%s' % (p.returncode, why[:250], (p.stdout + p.stderr)[-3000:]))
     with open(outp) as f:
         paths = json.load(f)
     out = {}
@@ -815,10 +839,33 @@ def run(ctx, wd):
                              steps_differing_from_impl_variant=len(impl_bad),
                              negative_variants_rejected=['%s/%s' % (v, n) for v, n, _ in NEGATIVE],
                              observations={k: v for k, v in sorted(observations.items())})
-    for key, v in sorted(observations.items()):
-        ex = v['example']
-        print('OBSERVATION (PyTask, outside the listed properties) %s: %d cases, e.g. %s -> %s  {contradicts %s}' % (
-            key[len('PyTask/'):], v['count'], ' ; '.join(ex['ops']), ex['what'], v['documentation']))
+    print_summary('PyTask', 'pytask', observations, strip='PyTask/')
+
+
+def print_summary(module, name, observations, strip=''):
+    """The ONE line an extra module prints per run (nothing when there is nothing to observe): the classes with their counts,
+    most frequent first, at most 300 characters.  Count and smallest example of every class stay in the evidence
+    (ctx.cov[name]['observations'])."""
+    if not observations:
+        return
+    try:
+        '\u2014\u2026'.encode(getattr(sys.stdout, 'encoding', None) or 'ascii')
+        dash, dots = '\u2014', '\u2026'
+    except (UnicodeError, LookupError):
+        dash, dots = '--', '...'
+    head = 'OBSERVATION (%s, outside the listed properties) %d classes, %d cases: ' % (
+        module, len(observations), sum(v['count'] for v in observations.values()))
+    tail = ' %s details in evidence coverage.%s.observations' % (dash, name)
+    items = ['%s (%d)' % (k[len(strip):] if strip and k.startswith(strip) else k, v['count'])
+             for k, v in sorted(observations.items(), key=lambda kv: (-kv[1]['count'], kv[0]))]
+    room = 300 - len(head) - len(tail)
+    shown = []
+    for n, item in enumerate(items):
+        if len(', '.join(shown + [item])) + (len(dots) + 2 if n + 1 < len(items) else 0) > room:
+            shown.append(dots)
+            break
+        shown.append(item)
+    print(head + ', '.join(shown) + tail)
 
 
 def _corrupt(enum, flagged):
